@@ -576,4 +576,153 @@ example : (machineReload.run ({ store := [], persistent := false, iatCheck := tr
     [.step 0, .step 0, .step 0, .step 0, .restart 105, .step 1, .step 1, .step 1, .step 1]).2.map (·.out)
     = [.authorized, .denyUsed] := by decide
 
+
+/-! ## the SSH sign handler with an identity CSR: two authorizations of one token in one HTTP request -/
+
+theorem restartL_inp (r : Req) : (restartL r).inp = r.inp := by
+  unfold restartL; split <;> rfl
+
+theorem restartL_fresh (r : Req) (h : r.fresh) : (restartL r).fresh := by
+  obtain ⟨h1, h2, h3, h4⟩ := h
+  unfold restartL Req.fresh; simp [h1, h2, h3, h4]
+
+theorem restartL_authorized (r : Req) (h : r.out = .authorized) : (restartL r).out = .authorized := by
+  unfold restartL; simp [h]
+
+def aIns (k : Str) (h : HReq) : Bool := insertedWith k h.a
+
+/-- per HTTP request: `a` obeys the per-request facts, `b` is exempt, and `b` has not moved unless `a` was authorized -/
+def HLoc (h : HReq) : Prop := Loc h.a ∧ h.b.inp.skip = true ∧ (h.b.fresh ∨ h.a.out = .authorized)
+
+def HInv (k : Str) (s : G × List HReq) : Prop :=
+  s.1.persistent = true ∧ s.2.countP (aIns k) ≤ 1 ∧ (has s.1.store k = false → s.2.countP (aIns k) = 0) ∧
+    ∀ h ∈ s.2, HLoc h
+
+theorem hinv_exec (k : Str) (s : G × List HReq) (e : Ev) : HInv k s → HInv k (hmachine.exec s e) := by
+  intro ⟨hp, h1, h0, hl⟩
+  cases e with
+  | restart now =>
+    simp only [Machine.exec, hmachine, HInv, restartG, hp, if_true]
+    have : (List.map hrestartL s.2).countP (aIns k) = s.2.countP (aIns k) := by
+      rw [List.countP_map]
+      congr 1
+      funext h
+      exact restartL_inserted k h.a
+    rw [this]
+    refine ⟨trivial, h1, h0, ?_⟩
+    intro h hh
+    rcases List.mem_map.1 hh with ⟨h', hh', rfl⟩
+    obtain ⟨la, lb, lc⟩ := hl h' hh'
+    refine ⟨loc_restart _ la, by simp only [hrestartL]; rw [restartL_inp]; exact lb, ?_⟩
+    rcases lc with lc | lc
+    · left; exact restartL_fresh _ lc
+    · right; exact restartL_authorized _ lc
+  | step t =>
+    simp only [Machine.exec, hmachine]
+    cases hr : s.2[t]? with
+    | none => exact ⟨hp, h1, h0, hl⟩
+    | some h =>
+      have hmem := mem_of_getElem? _ _ _ hr
+      obtain ⟨la, lb, lc⟩ := hl h hmem
+      show HInv k ((hstep s.1 h).1, s.2.set t (hstep s.1 h).2)
+      unfold hstep
+      split
+      · -- the first authorization steps
+        rename_i hpend
+        have hbf : h.b.fresh := by
+          rcases lc with lc | lc
+          · exact lc
+          · rw [lc] at hpend; cases hpend
+        have hloc : HLoc { h with a := (step s.1 h.a).2 } := ⟨loc_step s.1 h.a la, lb, Or.inl hbf⟩
+        unfold HInv; dsimp only
+        have hkey := step_key s.1 h.a
+        rcases step_cases s.1 h.a with ⟨hg, hi⟩ | ⟨k', hk', hno, hg, hi⟩
+        · have hsame : aIns k { h with a := (step s.1 h.a).2 } = aIns k h := by
+            unfold aIns insertedWith; dsimp only; rw [hi, hkey]
+          refine ⟨by rw [hg]; exact hp, ?_, ?_, forall_set HLoc s.2 t _ hl hloc⟩
+          · rw [countP_set_same _ _ _ _ _ hr hsame]; exact h1
+          · rw [hg, countP_set_same _ _ _ _ _ hr hsame]; exact h0
+        · have hc := countP_set (aIns k) s.2 t h { h with a := (step s.1 h.a).2 } hr
+          by_cases hkk : k = k'
+          · subst hkk
+            have hz := h0 hno
+            refine ⟨by rw [hg]; exact hp, ?_, ?_, forall_set HLoc s.2 t _ hl hloc⟩
+            · rw [hz] at hc; split at hc <;> split at hc <;> omega
+            · rw [hg]; simp only []
+              rw [has_casNil_same]; intro h; cases h
+          · have hx : aIns k { h with a := (step s.1 h.a).2 } = false := by
+              unfold aIns insertedWith; dsimp only; rw [hkey, hk']; simp; intro _; exact fun h => hkk h.symm
+            have ha : aIns k h = false := by
+              unfold aIns insertedWith; rw [hk']; simp; intro _; exact fun h => hkk h.symm
+            rw [hx, ha] at hc
+            simp at hc
+            refine ⟨by rw [hg]; exact hp, by omega, ?_, forall_set HLoc s.2 t _ hl hloc⟩
+            rw [hg]; simp only []
+            rw [has_casNil_other _ _ _ _ hkk, hc]; exact h0
+      · split
+        · -- the second authorization steps: exempt, the table is not touched
+          rename_i hauth
+          have hbkey : h.b.key = none := by unfold Req.key Inp.key; simp [lb]
+          have hg : (step s.1 h.b).1 = s.1 := by
+            rcases step_cases s.1 h.b with ⟨hg, _⟩ | ⟨k', hk', _⟩
+            · exact hg
+            · rw [hbkey] at hk'; cases hk'
+          have hloc : HLoc { h with b := (step s.1 h.b).2 } :=
+            ⟨la, by dsimp only; rw [step_inp]; exact lb, Or.inr hauth.1⟩
+          have hsame : aIns k { h with b := (step s.1 h.b).2 } = aIns k h := rfl
+          unfold HInv; dsimp only
+          refine ⟨by rw [hg]; exact hp, ?_, ?_, forall_set HLoc s.2 t _ hl hloc⟩
+          · rw [countP_set_same _ _ _ _ _ hr hsame]; exact h1
+          · rw [hg, countP_set_same _ _ _ _ _ hr hsame]; exact h0
+        · unfold HInv; dsimp only
+          refine ⟨hp, ?_, ?_, forall_set HLoc s.2 t _ hl ⟨la, lb, lc⟩⟩
+          · rw [countP_set_same _ _ _ _ _ hr rfl]; exact h1
+          · rw [countP_set_same _ _ _ _ _ hr rfl]; exact h0
+
+/-- **handler_at_most_one.** The SSH sign handler authorizes one token twice when the body carries an identity CSR, the
+    second time exempt from the one-time rule. With a persistent store, for every set of such HTTP requests (any tokens,
+    with and without identity CSR), every interleaving of the atomic steps of their authorizations and every placement of
+    restarts: at most one HTTP request per token id gets anything (SSH certificate or identity certificate) — the exempt
+    authorization never serves a request whose own first authorization did not store the record. -/
+theorem handler_at_most_one (g : G) (hp : g.persistent = true) (hs : List HReq) (hwf : ∀ h ∈ hs, h.wf)
+    (k : Str) (evs : List Ev) :
+    (hmachine.run (g, hs) evs).2.countP (served k) ≤ 1 := by
+  have h0 : hs.countP (aIns k) = 0 := by
+    rw [List.countP_eq_zero]
+    intro h hh
+    unfold aIns insertedWith; rw [(hwf h hh).1.2.1]; simp
+  have hinv := Machine.run_inv hmachine (HInv k) (fun s e h => hinv_exec k s e h) evs (g, hs)
+    ⟨hp, by rw [h0]; omega, fun _ => h0, fun h hh => ⟨loc_fresh _ (hwf h hh).1, (hwf h hh).2.2, Or.inl (hwf h hh).2.1⟩⟩
+  refine Nat.le_trans (List.countP_mono_left ?_) hinv.2.1
+  intro h hh hsv
+  obtain ⟨⟨a, b, c, d⟩, _, lc⟩ := hinv.2.2.2 h hh
+  unfold served at hsv
+  simp at hsv
+  have hk : h.a.key = some k := hsv.2
+  have hauth : h.a.out = .authorized := by
+    rcases hsv.1 with h1 | h1
+    · exact h1
+    · rcases lc with lc | lc
+      · rw [lc.2.2.2] at h1; cases h1
+      · exact lc
+  unfold aIns insertedWith
+  rcases b (a (c hauth)) with h | h
+  · simp [h, hk]
+  · rw [hk] at h; cases h
+
+/-- the exempt authorization alone would serve any number of requests: what `handler_at_most_one` rests on is the order
+    inside the handler -/
+theorem skip_alone_unbounded (g : G) (r : Req) (hf : r.fresh) (hs : r.inp.skip = true) (hl : r.inp.lookupOK = true)
+    (hi : r.inp.iat = none) (hv : r.inp.valid = true) :
+    (step (step (step (step g r).1 (step g r).2).1 (step (step g r).1 (step g r).2).2).1
+      (step (step (step g r).1 (step g r).2).1 (step (step g r).1 (step g r).2).2).2).2.out = .authorized ∧
+    (step (step (step (step g r).1 (step g r).2).1 (step (step g r).1 (step g r).2).2).1
+      (step (step (step g r).1 (step g r).2).1 (step (step g r).1 (step g r).2).2).2).1 = g := by
+  obtain ⟨h1, h2, h3, h4⟩ := hf
+  cases r with
+  | mk inp pc ins past out =>
+    simp only at h1 h2 h3 h4 hs hl hi hv
+    subst h1 h2 h3 h4
+    cases hc : g.iatCheck <;> simp [step, Req.key, Inp.key, hs, hl, hi, hv, hc]
+
 end Verif.OTT
